@@ -466,7 +466,8 @@ pub fn strip_attributes(input: TokenStream) -> TokenStream {
                 let mut kept: Vec<Vec<TokenTree>> = Vec::new();
 
                 let mut flush = |entry: &mut Vec<TokenTree>| {
-                    let is_logos = matches!(entry.last(), Some(TokenTree::Ident(ident)) if ident == "Logos");
+                    let is_logos =
+                        matches!(entry.last(), Some(TokenTree::Ident(ident)) if ident == "Logos");
                     if !entry.is_empty() && !is_logos {
                         kept.push(std::mem::take(entry));
                     }
@@ -474,7 +475,8 @@ pub fn strip_attributes(input: TokenStream) -> TokenStream {
                 };
 
                 for tt in tokens {
-                    if crate::util::is_punct(&tt, ',') {
+                    // A comma separates entries whatever follows it (`Debug,::logos::Logos`)
+                    if matches!(&tt, TokenTree::Punct(punct) if punct.as_char() == ',') {
                         flush(&mut entry);
                     } else {
                         entry.push(tt);
